@@ -150,6 +150,14 @@ CLAIMED = {
          "every child, separators only between consecutive tests. Tree equality after re-parse and idempotence for all values are NOT decided.",
     technique="AST/CFG shape analysis of the serializer + def-use of values to write sinks + static tokenisation of emitted constants with the lexer DFAs",
     ref="4/C04"),
+ "C20": dict(
+    text="Thin: Y1 add_commands writes the namespace the lookup reads, under the class's __name__ with the suffix the lookup appends, and the lookup "
+         "rejects absent names (UnknownCommand) before indexing; Y2 every documented definition key is read by the interpreter/serializer (ignored "
+         "keys are listed as notices); Y3 the generic interpreter disciplines (G2 pending parameter, G4 stores under slot tests, G5 failed match / "
+         "unaccepted argument refused, G6 case-insensitive tags, G7 no positional refill) and table well-formedness (T2, T5) are stated on the "
+         "interpreter itself and therefore hold for any registered definition. The accepted language per definition is NOT decided.",
+    technique="namespace/key agreement between writer and reader (AST) + documented-key usage analysis + shared CFG dominance rules of the interpreter",
+    ref="4/C20"),
 }
 NA = {}
 
